@@ -143,6 +143,12 @@ impl Root {
 
         NodeHandle(current, self).dispose_children(); // Destroy anything created in a previous update.
 
+        // A cleanup callback of the previous run may have disposed this very node (or the scope that
+        // owns it): a destroyed computation must not run again.
+        if self.nodes.borrow().get(current).is_none() {
+            return;
+        }
+
         let prev = self.current_node.replace(current);
         let (changed, tracker) = self.tracked_scope(|| callback(&mut value));
         self.current_node.set(prev);
